@@ -100,7 +100,7 @@ def valid(t):
     return True
 
 
-def shrink(t, still_fails, max_tries=400):
+def shrink(t, still_fails, max_tries=400, accept=None):
     """Return a (locally) minimal term for which still_fails(term) is true."""
     tries = 0
     improved = True
@@ -111,7 +111,7 @@ def shrink(t, still_fails, max_tries=400):
                 if cand == sub or T.size(cand) >= T.size(sub) and cand[0] != "lit":
                     continue
                 new = _replace_at(t, pos, cand)
-                if new == t or not valid(new):
+                if new == t or not valid(new) or (accept is not None and not accept(new)):
                     continue
                 tries += 1
                 if tries > max_tries:
